@@ -724,3 +724,4 @@ T("C05", "tag-list-else-first", LX, '        if program == "*":\n            tag
 T("C01", "send-requests-value-precomputed", LX, '                    if response:\n                        results[request.request_id] = Tag(\n                            request.tag,\n                            response.value if request.type_ == "read" else request.value,',
   '                    if response:\n                        _is_read = request.type_ == "read"\n                        results[request.request_id] = Tag(\n                            request.tag,\n                            response.value if _is_read else request.value,')
 T("C12", "header-unpacked-in-one-go", "pycomm3/socket_.py", '            data_len = struct.unpack_from("<H", data, 2)[0]', '            _command, data_len = struct.unpack_from("<HH", data)')
+M("C17", "cycle-never-reset", "pycomm3/util.py", "        if val > stop:\n            val = start\n", "        if val > stop:\n            pass\n", ["D17.1"])
